@@ -240,7 +240,7 @@ func unreached(h *HarnessRun) []string {
 }
 
 func writeStructuralReplay(prop string, cx *Counterexample) string {
-	dir := filepath.Join(verifDir, "replays", prop)
+	dir := filepath.Join(replaysDir(), prop)
 	os.MkdirAll(dir, 0o755)
 	path := filepath.Join(dir, cx.Harness+"-structural.json")
 	b, _ := json.MarshalIndent(map[string]interface{}{"property": prop, "harness": cx.Harness, "obligation": cx.Obligation, "kind": "structural", "detail": cx.Where,
